@@ -65,7 +65,7 @@ def carriers(prog, chk):
     ts = [x for sb_ in scope_ for x in sb_.call_sites(R.path_is("svgdx::events::InputEvent::text_string"))]
     cs = [x for sb_ in scope_ for x in sb_.call_sites(R.path_is("svgdx::events::InputEvent::cdata_string"))]
     sets = [(bb, t) for (bb, t, c) in co.call_sites(R.path_is(EL + "::set_attr")) if _lit(co, t, 1) == "text"]
-    chk.ob(bool(ts) and bool(cs) and len(sets) == 1, "A11.carrier", "Container:content->text", co.where(), "character-only content (text or CDATA) of a graphics element is promoted to the `text` attribute", "element content is no longer promoted to the text attribute through text_string()/cdata_string()")
+    chk.ob(bool(ts) and bool(cs) and len(sets) >= 1, "A11.carrier", "Container:content->text", co.where(), "character-only content (text or CDATA) of a graphics element is promoted to the `text` attribute", "element content is no longer promoted to the text attribute through text_string()/cdata_string()")
     # text_string() must unescape, cdata_string() must not (checked by A11.read); the value set is exactly that string
     # generated text events carry text_content / the tspan fragments
     ee = prog.body(EL + "::element_events")
